@@ -26,11 +26,22 @@ from ..core import pool_map
 from . import c14_model as jm
 
 MODULE = "chan/Jakes.tla"
-DEVS = ["ArangeCountDrifts", "ArangeStepRounded", "PlusTsDropped", "SkipOffByOne", "ShapeRestartsTime", "GenRedrawsPhases",
+DEVS = ["ArangeCountDrifts", "ArangeStepRounded", "ReusesBuffer", "PlusTsDropped", "SkipOffByOne", "ShapeRestartsTime", "GenRedrawsPhases",
         "SimilarSharesPhases", "NormOneOverL"]
-INVS = ["TypeOK", "Count", "Aligned", "OnGrid", "PhasesFixed", "Independent", "Bound", "BoundTight", "ZeroDoppler", "Moves",
+INVS = ["TypeOK", "Count", "Aligned", "OnGrid", "BuffersDistinct", "PhasesFixed", "Independent", "Bound", "BoundTight", "ZeroDoppler", "Moves",
         "UnitPower"]
-PROPS = ["Contiguity", "Isolation"]
+PROPS = ["Contiguity", "Isolation", "EarlierBlocksUnchanged"]
+# laws the specification may name in the `req` set of an emitted edge, and where the replay enforces them
+LAWS = {
+    "EarlierBlocksUnchanged": "Driver.check_all / run_rayleigh: every array returned earlier (kept, never copied) is compared again",
+    "OthersUnchanged": "Driver.check_all: get_samples() of every generator after every call",
+    "ArgumentsUnchanged": "FuncGen.generate_more_samples: phi_l / psi_l bit-identical after the call",
+    "QueriesPure": "Driver.check_all: get_samples/shape/L/Ts/Fd read repeatedly, values as configured",
+    "StoredBlockKept": "Driver.check_all: non-generating calls leave get_samples() as it was",
+    "Count": "shape comparison", "Contiguity": "values at the emitted indexes", "OnGrid": "1 % of a sample tolerance",
+    "PhasesFixed": "values with the phases of the emitted draw", "Bound": "|h| <= sqrt(L)",
+    "ZeroDoppler": "values of the Fd = 0 instance (tolerance floor 1e-9)",
+}
 BIG = 10 ** 7
 
 
@@ -155,7 +166,10 @@ class FuncGen:
 
     def generate_more_samples(self, n=None):
         n = 1 if n is None else n
+        a, b = self._phi.copy(), self._psi.copy()
         t1, h = self._fn(self.Fd, self.Ts, n, self.L, self._shape, self._t, self._phi, self._psi)
+        if not (np.array_equal(a, self._phi) and np.array_equal(b, self._psi)):
+            raise AssertionError("ArgumentsUnchanged: generate_jakes_samples modified its phi_l / psi_l argument")
         if h.shape[-1] != n:   # the class raises this from its reshape; the function silently returns the array
             raise ValueError(f"cannot reshape array of size {h.shape[-1]} into shape ({n},) "
                              f"[generate_jakes_samples returned {h.shape[-1]} samples for a request of {n}]")
@@ -183,6 +197,8 @@ class Driver:
         self.expect = []       # per generator: (array, tol array, description)
         self.stream = []       # per generator: which random stream its phases come from
         self.draw_of = []      # per generator: the phase draw currently in force
+        self.held = []         # every array ever returned: (generator, the array itself - NOT a copy, expected, tol, descr)
+        self.nstep = 0
         self.mir = Mirror(L, seed)
         self.phases = self.mir.phases
         self.table = TableRS() if self.lattice else None
@@ -227,6 +243,13 @@ class Driver:
             self.expect.append(None)
         self.expect[g] = (arr, tol, {"first": limb(blk["first"]), "n": int(blk["n"]), "ph": int(blk["ph"]),
                                      "shape": [int(x) for x in blk["sh"]] + [int(blk["n"])]})
+        # the caller keeps what it was handed (results stay results)
+        self.held.append((g, self.gens[g].get_samples(), arr, tol, self.expect[g][2]))
+
+    def _n(self, n):
+        """request sizes as Python ints and as numpy integer scalars"""
+        v = (self.seed + self.nstep) % 4
+        return int(n) if v < 2 else (np.int64(n) if v == 2 else np.int32(n))
 
     # ---- one step -------------------------------------------------------------------------------
     def _new(self, shape, RS):
@@ -238,6 +261,7 @@ class Driver:
     def step(self, e):
         r = e["ret"]
         op = r["op"]
+        self.nstep += 1
         g = int(r["g"]) - 1
         if op == "Construct":
             if self.lattice:
@@ -255,13 +279,13 @@ class Driver:
             return
         o = self.gens[g]
         if op == "Gen":
-            o.generate_more_samples(int(r["n"]))
+            o.generate_more_samples(self._n(r["n"]))
             self._set_expect(g, e, r["exp"])
         elif op == "GenDefault":
             o.generate_more_samples()
             self._set_expect(g, e, r["exp"])
         elif op == "Skip":
-            o.skip_samples_for_next_generation(int(r["n"]))
+            o.skip_samples_for_next_generation(self._n(r["n"]))
         elif op == "SkipBig":
             for _ in range(int(r["r"])):
                 o.skip_samples_for_next_generation(BIG)
@@ -299,9 +323,27 @@ class Driver:
     def check_all(self):
         """compare get_samples() of every generator with the demanded block; list of descriptions"""
         bad = []
+        latest = {}
+        for i, (g, obj, arr, tol, d) in enumerate(self.held):
+            latest[g] = i
+        for i, (g, obj, arr, tol, d) in enumerate(self.held):
+            if latest[g] == i and obj is self.gens[g].get_samples():
+                continue        # the generator's current block: compared below with the full report
+            o = np.asarray(obj)
+            if o.shape != arr.shape or not np.all(np.abs(o - arr) <= tol):
+                bad.append((f"EarlierBlocksUnchanged: the array returned earlier by generator {g + 1} for indexes "
+                            f"{d['first']}..{d['first'] + d['n'] - 1} (kept by the caller) no longer holds those samples "
+                            f"after this call", None))
+                return bad
         for g, o in enumerate(self.gens):
             arr, tol, d = self.expect[g]
             got = np.asarray(o.get_samples())
+            q1 = (tuple(o.shape or ()), o.L, o.Ts, o.Fd)      # queries: any number of reads, no effect
+            q2 = (tuple(o.shape or ()), o.L, o.Ts, o.Fd)
+            if q1 != q2 or q1[1:] != (self.L, self.Ts, self.Fd):
+                bad.append((f"QueriesPure: generator {g + 1} reports L/Ts/Fd = {q1[1:]}, configured "
+                            f"{(self.L, self.Ts, self.Fd)}", None))
+                continue
             if got.shape != arr.shape:
                 bad.append((f"generator {g + 1}: get_samples() has shape {list(got.shape)}, demanded {list(arr.shape)} "
                             f"(indexes {d['first']}..{d['first'] + d['n'] - 1})", None))
@@ -405,6 +447,7 @@ def run_rayleigh(seed, edges):
     from pyphysim.channels.fading_generators import RayleighSampleGenerator
     np.random.seed(seed % (2 ** 31))
     gens, last, seen = [], [], []
+    held = []      # every array ever returned (the object itself) with a copy of its values at that time
     okc = 0
 
     def block(o, blk, what):
@@ -446,6 +489,13 @@ def run_rayleigh(seed, edges):
             return okc, ("violation", i, f"Rayleigh {_opname(e)} raised {type(ex).__name__}: {str(ex)[:160]}")
         if msg:
             return okc, ("violation", i, "Rayleigh " + msg)
+        for k, (obj, val) in enumerate(held):
+            if not (np.shape(obj) == val.shape and np.array_equal(obj, val)):
+                return okc, ("violation", i, f"Rayleigh {_opname(e)}: EarlierBlocksUnchanged: the array returned by "
+                                             f"request #{k} (kept by the caller) was changed by this call")
+        if op in ("Construct", "Gen", "GenDefault", "Similar"):
+            o = gens[-1] if op in ("Construct", "Similar") else gens[g]
+            held.append((o.get_samples(), np.array(o.get_samples(), copy=True)))
         cur = [np.array(o.get_samples(), copy=True) for o in gens]
         for h, o in enumerate(gens):
             changed = h < len(last) and not (last[h].shape == cur[h].shape and np.array_equal(last[h], cur[h]))
@@ -488,6 +538,9 @@ def explore(ctx, name, r, depth, combos, every=None, extra=()):
     """replay all paths of the emitted graph; combos = list of (mode, FdTs, Ts); every path is run under
     `every` combos chosen round-robin (None: under all of them) plus one of `extra` (round-robin)"""
     ctx.account(r, MODULE, name)
+    unknown = {x for e in r.emitted for x in e.get("req", ())} - set(LAWS)
+    if unknown or not all(e.get("req") for e in r.emitted):
+        raise tlc.TlcError(f"{name}: the specification names laws the replay does not implement: {sorted(unknown)}")
     g = graph.Graph(r.emitted, label=_label)
     _GRAPHS[name] = g
     roots = g.roots()
@@ -536,7 +589,8 @@ def report(ctx, found):
 
 def model_devs(ctx):
     """every named deviation must be FOUND by TLC (the properties are not vacuous)"""
-    want = {"ArangeCountDrifts": ("Count", {}), "ArangeStepRounded": ("OnGrid", {}), "PlusTsDropped": ("Contiguity", {}), "SkipOffByOne": ("Contiguity", {}),
+    want = {"ArangeCountDrifts": ("Count", {}), "ArangeStepRounded": ("OnGrid", {}),
+            "ReusesBuffer": ("EarlierBlocksUnchanged", {}), "PlusTsDropped": ("Contiguity", {}), "SkipOffByOne": ("Contiguity", {}),
             "ShapeRestartsTime": ("Contiguity", {}), "GenRedrawsPhases": ("PhasesFixed", {}),
             "SimilarSharesPhases": ("Independent", dict(maxgens=2)), "NormOneOverL": ("UnitPower", dict(lattice=True))}
 
